@@ -106,6 +106,28 @@ def run(ctx):
                              "history": ["%s%r" % (x.name, x.args) for x in steps[2:k]][:12]})
         if i < 2:
             samples.append(["%s%r -> %s" % (x.name, x.args, x.impl[:40]) for x in steps[1:6]])
+    # directed sessions: rename of the ACTIVE script on a server without RENAMESCRIPT, then look at what the server holds
+    import msref as _m, refserver as _rs
+    for old, new, body in [("a", "b", b"keep;\r\n"), ("wörk", "new name", b"# x\r\nstop;\r\n"), ("a", "a2", b"")]:
+        for make_active in (True, False):
+            srv = _rs.RefServer(r, scripts={}, version=False)
+            ses = _m.Session()
+            ses.connect(b"", [], "user", "pw", server=srv)
+            ses.op("putscript", old, body.decode())
+            if make_active:
+                ses.op("setactive", old)
+            out = ses.op("renamescript", old, new)
+            lst = ses.op("listscripts")
+            evals += 2
+            nontriv += 1
+            o, n = old.encode("utf-8"), new.encode("utf-8")
+            if "res=b1" not in out:
+                viol.append({"op": "renamescript", "what": "emulated rename of an existing %s script onto a free name returned %s" % ("active" if make_active else "inactive", out[:60])})
+            if o in srv.scripts or n not in srv.scripts or (srv.active == n) != make_active:
+                viol.append({"op": "renamescript", "what": "after the emulated rename (active=%s) the server holds %r, active %r" % (make_active, sorted(srv.scripts), srv.active)})
+            want = "ls:%s:%s" % (_m.hexor(n) if make_active else "-", "" if make_active else _m.hexor(n))
+            if ("res=" + want) not in lst:
+                viol.append({"op": "listscripts", "what": "listing after the rename differs from the server's state: %s, want %s" % (lst[:80], want)})
     # two Client objects alive in one process, connected to servers that differ: each must keep ITS server's view
     import msref, refserver
     for rep in range(20 if ctx.tier == "quick" else 200):
